@@ -154,7 +154,10 @@ def check_case(spec):
 
     for fixed_arg, fix_psi in ((None, True), (np.array([], dtype=np.int64), True), (np.array([0, n - 1], dtype=np.int64), False)):
         mo = MeshOperators(mesh, SparseSolver.SUPERLU, fixed_sites=fixed_arg, fix_psi=fix_psi)
+        # several refreshes with different potentials (a solver refreshes every step / screening iteration); the last one counts
         mo.set_link_exponents(0.5 * A[::-1].copy() + 0.1)
+        mo.set_link_exponents(-0.3 * A + 0.05)
+        mo.set_link_exponents(0.0 * A)
         mo.set_link_exponents(A)
         MO = a[:, None] * mo.psi_laplacian.toarray()
         r = rel(np.abs(MO - MO.conj().T).max(), np.abs(MO).max())
